@@ -20,6 +20,12 @@ theorem str_abs {s : FStr} (hs : WF c s) : str s = .ok (abs s) := by
   · have : s.len = 0 := by omega
     rw [this]; simp
 
+/-- the repaired `operator<<` writes exactly the characters of the string, stored NULs included -/
+theorem streamView_abs {s : FStr} (hs : WF c s) : streamView s = .ok (abs s) := by
+  have := hs.1; have := hs.2.1
+  unfold streamView abs
+  rw [Mem.read_ok (by omega)]; simp
+
 theorem at_abs {s : FStr} (hs : WF c s) {idx : Nat} (h : idx < s.len) :
     at_ s idx = StdString.at_ (abs s) idx := by
   have := hs.1; have := hs.2.1
